@@ -184,6 +184,28 @@ Definition step (m : mode) (maxq : nat) (s : st) (a : action) : st :=
       end
   end.
 
+(* ---- a WriteMessage call as the code forms it ----
+   WriteMessage first deflates the payload when write compression applies (data message, permessage-deflate negotiated),
+   THEN cuts the bytes it is going to send into fragments of at most MaxWebsocketFramePayloadSize and, for a bounded
+   queue, asks for room for all of them.  DEFLATE is not modelled: the deflated length is an oracle input of the call
+   ([z = Some n]: compression applied and produced n bytes; [None]: the payload goes out as it is).
+   Control messages are never fragmented; an empty payload is one empty frame. *)
+Definition wire_len (raw : nat) (z : option nat) : nat := match z with Some n => n | None => raw end.
+
+Definition nframes (limit : nat) (ctl : bool) (n : nat) : nat :=
+  if ctl then 1
+  else match limit, n with
+       | 0, _ => 1
+       | _, 0 => 1
+       | _, _ => (n + limit - 1) / limit
+       end.
+
+(* the frames of message [mid]: identities mid*100 + fragment index *)
+Definition msg_frames (mid n : nat) : list frame := map (fun j => mid * 100 + j) (seq 0 n).
+
+Definition begin_msg (limit mid : nat) (ctl : bool) (raw : nat) (z : option nat) : action :=
+  Begin (msg_frames mid (nframes limit ctl (wire_len raw z))).
+
 Definition init : st := mk [] false None None 0 [] false [] [].
 Definition run (m : mode) (maxq : nat) (acts : list action) : st := fold_left (step m maxq) acts init.
 
